@@ -1,7 +1,8 @@
 """C09 -- pool keeps its size; workers are recycled on schedule without harm."""
-from checks import poolcommon, workercommon
+from checks import poolcommon, poolreal, workercommon
 
 
 def main(ctx):
     poolcommon.run(ctx, 'C09')
     workercommon.run(ctx, 'C09')
+    poolreal.run(ctx, 'C09')
